@@ -287,7 +287,7 @@ def check_c15(pid, tier):
     obs += g7._extra_codecs(pid, tier, uds=("strategies", "strategy_objects", "pass_natives"))
     from . import c17 as _c17
 
-    for r in runner.run_pool(_c17.codec_same_name_task, [(pid,)], chunks=1):
+    for r in runner.run_pool(_c17.codec_same_name_task, [(pid,)], chunks=1) + runner.run_pool(_c17.codec_selfref_task, [(pid,)], chunks=1):
         if "crash" in r:
             crashes.append(r["crash"] + " @ " + r["payload"] + "\n" + r["trace"][-500:])
         else:
